@@ -137,4 +137,44 @@ def math_isnan (x : V) : PyM V :=
   | .bool _ => pure (.bool false)
   | _ => throw .TypeError
 
+/-! ### schedules (structures/schedules.py): comprehensions with several `for` clauses, own lists, `tuple.index`, `int(x)` -/
+
+/-- the lists produced by the inner clauses of `[e for x in a for y in b]`, one after another -/
+def flatten (v : V) : PyM V :=
+  match v with
+  | .list xss => do
+    let r ← xss.foldlM (fun (acc : List V) xs => match xs with
+      | .list ys => pure (acc ++ ys)
+      | _ => throw .unsupported) []
+    pure (.list r)
+  | _ => throw .unsupported
+
+/-- one item of the generator expression given to `bytearray(…)` / `bytes(…)`: the constructor consumes the generator
+item by item, so an item that is no byte raises (ValueError / TypeError) BEFORE the next item is computed -/
+def byteItem (x : V) : PyM V := do pure (byteV (← byteOfV x))
+
+/-- `xs.append(v)` on a list the function created itself and has not handed out (the translator checks that) -/
+def list_append (xs v : V) : PyM V :=
+  match xs with
+  | .list l => pure (.list (l ++ [v]))
+  | _ => throw .unsupported
+
+def seqIndexFrom (x : V) : List V → Nat → PyM V
+  | [], _ => throw .ValueError
+  | y :: ys, i => do if ← eqB y x then pure (.int i) else seqIndexFrom x ys (i + 1)
+
+/-- `seq.index(x)` on a tuple / list: position of the first equal element, ValueError when there is none -/
+def seq_index (s x : V) : PyM V :=
+  match s with
+  | .tuple xs | .list xs => seqIndexFrom x xs 0
+  | _ => throw .unsupported
+
+/-- `int(x)` of an int / bool (text, floats and objects with `__int__`: declined) -/
+def int_ (x : V) : PyM V :=
+  match x with
+  | .int i => pure (.int i)
+  | .bool b => pure (.int (if b then 1 else 0))
+  | .none | .list _ | .tuple _ | .dict .. | .map .. => throw .TypeError
+  | _ => throw .unsupported
+
 end PlumVerif.Py
